@@ -16,6 +16,10 @@ UNITS = [
          functions=["copy_api_from_app", "verify_settings", "svt_svt_enc_init_parameter"], min_obligations=200, canaries=38,
          what="every documented-valid value of one parameter, others at the library defaults, 64x64, is accepted by the "
               "real chain copy_api_from_app + verify_settings", **COMMON),
+    Unit(uid="U12.2.rc_qp", entry="h_rc_qp", defines=["U12_RCQP"], functions=["copy_api_from_app", "verify_settings"], min_obligations=200,
+         what="through the API path, rate-control modes 1 and 2: an application QP bound outside the documented [0-63] is "
+              "rejected and an accepted configuration works from the application's bounds (the copy hands them to the "
+              "validation in every rate-control mode)", **COMMON),
     Unit(uid="U12.2.rc", entry="h_rc", defines=["U12_RC"], functions=["copy_api_from_app", "verify_settings",
          "compute_default_look_ahead", "compute_default_intra_period", "cap_look_ahead_distance"], min_obligations=100,
          what="rate-control group jointly symbolic (mode 0..2, intra period -2..255, TPL, levels 3..5, 1..120 fps) with "
